@@ -212,10 +212,29 @@ func c01KindOf(g c01Recv) int {
 // c02Check (C02) looks only at the consumer's decoded log: the first video frame is a key frame, and
 // every frame is preceded in the log by a sequence header with the content of the one in force when
 // the frame was published.
-func c02Check(who string, got []c01Recv, pub []base.RtmpMsg, kinds []int) {
+func c02Check(who string, got []c01Recv, pub []base.RtmpMsg, kinds []int, joinAt int, gopNum int) {
 	gk := make([]int, len(got))
 	for i := range got {
 		gk[i] = c01KindOf(got[i])
+	}
+	// GOP replay clause: the frames received are exactly the most recent cached GOPs (at most gopNum, oldest
+	// first, the newest possibly incomplete) followed by the live frames, with nothing missing in between
+	{
+		var ef, rf []int
+		for _, e := range c01Expect(kinds, joinAt, gopNum, pub) {
+			if c01IsFrame(kinds[e]) {
+				ef = append(ef, e)
+			}
+		}
+		for i := range got {
+			if c01IsFrame(gk[i]) {
+				rf = append(rf, i)
+			}
+		}
+		vrt.Assert(len(rf) == len(ef), who+": replayed frames are exactly the most recent cached GOPs, contiguous with the live frames")
+		for q := 0; q < len(rf) && q < len(ef); q++ {
+			vrt.Assert(c01Same(got[rf[q]], pub[ef[q]]), who+": replayed and live frames are the published frames, in order")
+		}
 	}
 	for i := range got {
 		if gk[i] == kVkey {
@@ -355,7 +374,7 @@ func VerifC01Relay() {
 		got = append(got, c01Recv{typ: m.typ, ts: m.ts, payload: m.payload})
 	}
 	if vrt.Param("prop") == 2 {
-		c02Check("rtmp", got, pub, kinds)
+		c02Check("rtmp", got, pub, kinds, jr, cfg.RtmpConfig.GopNum)
 	} else {
 		c01Check("rtmp", got, pub, kinds, jr, cfg.RtmpConfig.GopNum)
 	}
@@ -368,7 +387,7 @@ func VerifC01Relay() {
 			got2 = append(got2, c01Recv{typ: m.typ, ts: m.ts, payload: m.payload})
 		}
 		if vrt.Param("prop") == 2 {
-			c02Check("rtmp2", got2, pub, kinds)
+			c02Check("rtmp2", got2, pub, kinds, jr2, cfg.RtmpConfig.GopNum)
 		} else {
 			c01Check("rtmp2", got2, pub, kinds, jr2, cfg.RtmpConfig.GopNum)
 		}
@@ -387,7 +406,7 @@ func VerifC01Relay() {
 		gotf = append(gotf, c01Recv{typ: t.typ, ts: t.ts, payload: t.body})
 	}
 	if vrt.Param("prop") == 2 {
-		c02Check("flv", gotf, pub, kinds)
+		c02Check("flv", gotf, pub, kinds, jf, cfg.HttpflvConfig.GopNum)
 	} else {
 		c01Check("flv", gotf, pub, kinds, jf, cfg.HttpflvConfig.GopNum)
 	}
